@@ -263,6 +263,16 @@ def loop_body_effect(fn, cfg, next_bb):
         if re.search(r"(BTreeMap|HashMap|IndexMap)::<.*>::insert$", c) and len(t["args"]) >= 3:
             org = mir.provenance(fn, du, t["args"][1], transparent_extra=IDENT)
             from_item = any(o.kind == "call" and o.bb == next_bb for o in org)
+            if from_item:
+                # ... and the whole item: a component of it (`(profile, file)` in a set, keyed by `profile`) is not unique
+                # among the items unless it is the key half of a map's own `(key, value)` entries
+                it_ty = " ".join(fn["blocks"][next_bb]["t"].get("gargs") or ())
+                for o in org:
+                    if o.kind != "call" or o.bb != next_bb:
+                        continue
+                    parts = [q for q in list(o.proj)[2:] if q.startswith(".")] if list(o.proj)[:1] == [" as Some"] else [q for q in o.proj if q.startswith(".")]
+                    if parts and not (re.search(r"(hash_map|btree_map|indexmap::map)::", it_ty) and parts[0] == ".0"):
+                        return "ordered", "loop body inserts into a map under a key that is only a part (%s) of the iterated item: items that agree on it overwrite each other in hash order" % "".join(parts)
             if not from_item:
                 via = sorted({o.callee.split("::")[-1] for o in org if o.kind == "call"} | {"a constant" for o in org if o.kind == "const"})
                 return "ordered", "loop body inserts into a map under a key that is not the iterated item itself (computed via %s): items whose keys collide overwrite each other in hash order" % (", ".join(via) or "another value")
